@@ -83,8 +83,14 @@ def cases(tier, seed, info):
     info['pels'] = m
     # (d) documents whose printed LENGTH sits on and next to round numbers (the sizes buffers and blocks have)
     marks = [2048, 4096, 8192, 16384, 32768] if tier == 'quick' else [512 * k for k in range(4, 120)]
+    slot = seed
     for j, mk in enumerate(marks):
-        out.append(dict(kind='lengths', seed=seed * 77 + j, targets=[mk - 1, mk, mk + 1] + ([2 * mk] if tier == 'quick' else [])))
+        targets = [mk - 1, mk, mk + 1] + ([2 * mk] if tier == 'quick' else [])
+        # each target is printed / written in this process AND by the real tool started as a process in one of
+        # several ordinary environments (python -O, a POSIX locale, another directory ...), all of them in turn
+        variants = [seams.PROC_VARIANTS[(slot + i) % len(seams.PROC_VARIANTS)] for i in range(len(targets))]
+        slot += len(targets)
+        out.append(dict(kind='lengths', seed=seed * 77 + j, targets=targets, variants=variants))
     info['length_marks'] = len(marks)
     return out
 
@@ -274,7 +280,8 @@ def _lengths(case):
     cfg.every_pel = True
     cfg.allow_plugins = False
     recs = []
-    for t in case['targets']:
+    for t, variant in [(t, None) for t in case['targets']] + list(zip(case['targets'], case.get('variants', []))):
+        seams.set_proc_variant(variant)
         pel = genpel.gen_pel(rng, kinds=['UD'], creator='O', sev=0x40, flags=0x2000, eid=encode.u32(0x50002000))
 
         def build(n):
@@ -306,7 +313,7 @@ def _lengths(case):
                 ok = printed == ([want] if mode == 'all' else want)
             except ValueError:
                 ok = False
-            recs.append(dict(shape_ok=hit, src='stdout-%s-len' % mode, inl=[], outl=[], parses=ok, roundtrip=ok,
+            recs.append(dict(shape_ok=hit, src='stdout-%s-len%s' % (mode, '-' + variant if variant else ''), inl=[], outl=[], parses=ok, roundtrip=ok,
                              text='%d chars: %s' % (len(text), (res['out'] or '')[:200])))
         seams.run_cli(['-p', os.path.join(d, 'in'), '-j', '-o', os.path.join(d, 'out'), '-E', '-P'])
         names = os.listdir(os.path.join(d, 'out'))
@@ -318,9 +325,10 @@ def _lengths(case):
                 ok = json.loads(got) == want
             except ValueError:
                 ok = False
-        recs.append(dict(shape_ok=hit and len(names) == 1, src='jsonfile-len', inl=[], outl=[], parses=ok, roundtrip=ok,
+        recs.append(dict(shape_ok=hit and len(names) == 1, src='jsonfile-len' + ('-' + variant if variant else ''), inl=[], outl=[], parses=ok, roundtrip=ok,
                          text='%d chars, files %r' % (len(text), names)))
         shutil.rmtree(d, ignore_errors=True)
+    seams.set_proc_variant(None)
     return recs
 
 
